@@ -253,6 +253,12 @@ pub fn run_case(c: &Case, path: &std::path::Path, st: &mut St) -> Result<Vec<(St
                         for r in readers.borrow().iter() {
                             if let Some(pin) = &r.pinned {
                                 st.invariant_evals += 1;
+                                if let Some(p) = pin.reach.iter().rev().next().filter(|p| **p >= ts.num_pages) {
+                                    viol.push((
+                                        "writer-high-water-mark-below-reader-snapshot".into(),
+                                        format!("step {}: the next writer begins with a page count of {}, but page {} belongs to the snapshot (tx {}) of an open reader: the next page appended would overwrite it", si, ts.num_pages, p, pin.meta.tx_id),
+                                    ));
+                                }
                                 if let Some(p) = pin.reach.intersection(&free).next() {
                                     viol.push((
                                         "free-set-intersects-reader-snapshot".into(),
@@ -376,7 +382,7 @@ pub fn run(ctx: &Ctx) -> Shard {
         cases.push(serde_json::from_value(doc["case"]["c03_case"].clone()).expect("case"));
     } else {
         let mut rng = Rng::new(ctx.shard_seed());
-        let n = ctx.scale(if ctx.thorough() { 1500 } else { 250 });
+        let n = ctx.scale(if ctx.thorough() { 1500 } else { 600 });
         for i in 0..n {
             let ps = if ctx.thorough() && i % 3 == 2 { 4096 } else { 1024 };
             let steps = if ctx.thorough() { 120 } else { 60 };
